@@ -531,6 +531,46 @@ Example C11x_compose_instance :
     length (fst rAB) < length (fst rA) /\ length (fst rAB) <= length (fst rB) /\ fst rAB <> [].
 Proof. exact YProofsCompStruct.cs_comp_instance. Qed.
 
+(* float(Decimal) and math.isclose see only the VALUE: equal rationals convert to the same double, so numbers Python finds
+   equal (int / bool / float / Decimal; ints and floats within 53 bits) are close under every math_epsilon - this is what
+   removed the "no Decimal leaf when math_epsilon is added" side condition of [pair_ok] and the Decimal half of the rigidity
+   hypotheses of C11x_monotone_partial *)
+From DD Require Options.YProofsDec Options.YProofsCompDefault.
+Theorem C11x_nearest_double_by_value :
+  forall p q p' q', (0 < q)%Z -> (0 < q')%Z -> (p * q')%Z = (p' * q)%Z -> YModel.dy_of_q p q = YModel.dy_of_q p' q'.
+Proof. exact YProofsDec.dy_of_q_eq. Qed.
+Print Assumptions C11x_nearest_double_by_value.
+
+Theorem C11x_equal_numbers_are_close :
+  forall a b x y e, YProofsCompNum.is_num a = true -> YProofsCompNum.is_num b = true ->
+  YProofsDec.is_double a = true -> YProofsDec.is_double b = true ->
+  YModel.fl_of a = Some (Some x) -> YModel.fl_of b = Some (Some y) -> YValue.py_eq a b = true -> is_close x y e = true.
+Proof. exact YProofsDec.is_close_py_eq_dec. Qed.
+Print Assumptions C11x_equal_numbers_are_close.
+
+Theorem C11x_equal_decimals_alt :      (* Decimal('1.5') / Decimal('1.50'): related under EVERY option set, notation 'e' included *)
+  forall F m e m' e', YValue.py_eq (YValue.ADec m e) (YValue.ADec m' e') = true ->
+  YProofsAtoms.altL F (YValue.ADec m e) (YValue.ADec m' e') = true.
+Proof. exact YProofsMono.dec_altL. Qed.
+Print Assumptions C11x_equal_decimals_alt.
+
+(* the entry-wise embedding FAILS in the default list mode, for the real difflib opcodes of the pair (they tile):
+   DeepDiff([1, 1.5], [1.75, 1.75, 1.5]) reports at root[0], root[1] (difflib pass: 2 reports, pairwise pass: 3); math_epsilon=0.5
+   removes one report of the pairwise pass, which is then preferred and reports at root[0], root[2] *)
+Theorem C11x_compose_default_mode_refuted :
+  exists rF rG,
+    YProofsComp.ole YModel.no_opts YProofsCompDefault.DFeps /\
+    (YProofsComp.pair_ok YModel.no_opts YProofsCompDefault.DFeps (YValue.AFloat 3 1) (YValue.AFloat 7 2) /\
+     YProofsComp.pair_ok YModel.no_opts YProofsCompDefault.DFeps (YValue.AInt 1) (YValue.AFloat 7 2)) /\
+    YProofsLists.tiles (YProofsCompDefault.dops nil nil nil) 0 0 2 3 = true /\
+    YModel.run_optF YProofsCompDefault.dud0 YProofsCompDefault.dops YProofsCompDefault.dcdef YModel.no_opts
+      YProofsCompDefault.dt1 YProofsCompDefault.dt2 = YModel.Ok rF /\
+    YModel.run_optF YProofsCompDefault.dud0 YProofsCompDefault.dops YProofsCompDefault.dcdef YProofsCompDefault.DFeps
+      YProofsCompDefault.dt1 YProofsCompDefault.dt2 = YModel.Ok rG /\
+    ~ YProofsComp.covers (fst rF) (fst rG).
+Proof. exact YProofsCompDefault.comp_default_mode_refuted. Qed.
+Print Assumptions C11x_compose_default_mode_refuted.
+
 (* where composition FAILS: exactly the side conditions of [ole] / [pair_ok] *)
 Theorem C11x_compose_eps_over_sig_refuted :          (* C11-EPS-OVER-SIG: every field of ole but le_eps *)
   exists F G a b r, YProofsCompWitness.ole_but_eps F G /\
